@@ -386,8 +386,8 @@ def sec_region_batch(rec, b=3, compute=False, kinds=None, patches=None):
                 im.numpy_like = bool(kinds and kinds[k] == "numpy")
                 bl.add_tomogram(im, MC.Molecules(to_symarray([P[t]]), rotation.SymRotation([Qs[t]]), features={"row": [t]}), image_id=k)
             binned = bl.binning(b, compute=compute).replace(output_shape=S)
-            ro = [t.compute() for t in bl.construct_loading_tasks(backend=xp)]
-            rb = [t.compute() for t in binned.construct_loading_tasks(backend=xp)]
+            ro = stubs.compute_together(bl.construct_loading_tasks(backend=xp))
+            rb = stubs.compute_together(binned.construct_loading_tasks(backend=xp))
             return bl, binned, ro, rb
 
         k = [z3.Real(f"k{i}") for i in range(3)]
